@@ -62,6 +62,7 @@ func c12Cases(tier string, seed uint64) []fw.Case {
 			}
 			g := gen.Lower("p", p.AST)
 			for di, vars := range assignments(p.NV, maxData, rng) {
+				zeroData(vars, p.AST)
 				base := step.Case{G: g, Vars: vars, Lenient: hasOr(g)}
 				orders, _ := step.Orders(&base, maxOrders, rng)
 				if len(orders) > maxOrders {
